@@ -1,3 +1,4 @@
+import re
 """Per-property plans: which Coq targets carry the theorems, which correspondence steps tie the
 models to /repo, how many cases per tier, and how non-trivial cases are recognised."""
 
@@ -14,17 +15,9 @@ def step(name, harness, model, quick, thorough, shards_thorough=8, args=None):
     return dict(name=name, harness=harness, model=model, n=dict(quick=quick, thorough=thorough),
                 shards=dict(quick=1, thorough=shards_thorough), args=args or [])
 
-PLANS = {
-    "C11": dict(
-        coq_targets=["Props/C11.vo"],
-        steps=[
-            step("parallel-moves-generic", "pm", "pm", 3000, 200000),
-        ],
-        rule="random move graphs with in-degree <= 1 over up to 10 abstract temporaries (cycles, chains, fan-out, self-moves, "
-             "sources without targets); the implementation's generic parallel_moves is observed through a recording backend; "
-             "a case is non-trivial when the emitted move list is non-empty; distinct = distinct move graphs",
-        explanation="theorems: generic parallel-move correctness and termination for all graphs; correspondence: model output = Rust output, "
-                    "and on disagreement the recorded moves are executed on marker values against the simultaneous assignment",
-        assumptions=["the recording backend sees exactly the calls the generic code makes (public traits of axcut2backend)"],
-    ),
-}
+
+import importlib, pkgutil, os
+PLANS = {}
+for _m in pkgutil.iter_modules([os.path.dirname(__file__)]):
+    if re.match(r"^C\d+$", _m.name):
+        PLANS[_m.name] = importlib.import_module("plans." + _m.name).PLAN
